@@ -184,7 +184,7 @@ def floors(tier):
 def plan(tier, seed):
     out = [{"name": "directed", "variant": v} for v in range(len(DIRECTED))]
     parts = 10 if tier == "quick" else 16
-    n = 5 if tier == "quick" else 22
+    n = 5 if tier == "quick" else 40
     for p in range(parts):
         out.append({"name": "random", "seed": seed, "part": p, "n": n})
     return out
@@ -192,6 +192,7 @@ def plan(tier, seed):
 
 # ------------------------------------------------------------------------------- monitor / fault injection
 DELAY = [0.0]
+LOOPS_RAN = [0]
 CHECK_CALLS = [0, 0]  # [calls, delayed calls]
 
 
@@ -279,14 +280,15 @@ def _judge(ctx, sp, schedule, delay, base, records, calib_test, descr, allow_ret
             elif dt > GRACE_LIMIT:
                 entry.setdefault("overruns", []).append(round(dt, 2))
             loops_before.append(kind)
+            LOOPS_RAN[0] += 1
             continue
         # terminating test
         if not loops_before:
             ctx.ok(cls="terminating-before-any-loop")
         b = base[entry["kind"]]
         if summ["timeout"] and set(summ["lines"]) <= set(b["import_lines"]):
-            if loops_before:
-                ctx.anomaly("later_result_lost")
+            if loops_before or LOOPS_RAN[0]:
+                ctx.anomaly("later_result_lost")  # (possibly by a loop of an earlier schedule in this process)
             else:
                 ctx.anomaly("terminating-test-timed-out-without-loop-before")
             continue
@@ -299,7 +301,7 @@ def _judge(ctx, sp, schedule, delay, base, records, calib_test, descr, allow_ret
             added = got[comp] - alone[comp]
             if added:
                 ctx.witness(
-                    f"added-{comp}:after-{'+'.join(sorted(set(loops_before))) or 'no-loop'}",
+                    f"added-{comp}:after-{loops_before[-1] if loops_before else 'no-loop'}",
                     f"{entry['kind']} executed after {loops_before} has {comp} its stand-alone execution does not have: {sorted(added)[:10]}",
                     dict(case, alone=b["summary"], later=summ),
                 )
@@ -361,11 +363,20 @@ def run_chunk(spec, ctx):
     # stand-alone results first (fresh process, no looping test has run yet); two equal runs required
     base = {}
     import_lines = sorted(sp.lineids_to_linenos(sp.instrumentation_tracer.import_trace.covered_line_ids))
+    from pynguin.testcase.execution import TestCaseExecutor
+
+    def alone(t):
+        # the stand-alone result is not about timeouts: generous budget, so that a loaded machine does not spoil it
+        ex = TestCaseExecutor(sp, maximum_test_execution_timeout=20, test_execution_time_per_statement=20)
+        return H.summarize(ex.execute(t), sp, assertions=False, verification=False)
+
     for kind, lines in T_TESTS.items():
         t = H.mk_test(lines)
-        s1 = H.summarize(_executor(sp).execute(t), sp, assertions=False, verification=False)
-        s2 = H.summarize(_executor(sp).execute(t), sp, assertions=False, verification=False)
-        if s1 != s2 or s1["timeout"]:
+        for attempt in range(3):
+            s1, s2 = alone(t), alone(t)
+            if s1 == s2 and not s1["timeout"]:
+                break
+        else:
             ctx.inconclusive_because(f"stand-alone result of {kind} is not stable / timed out (loaded machine?): {H.diff_keys(s1, s2)}")
             return
         base[kind] = {"summary": s1, "import_lines": import_lines}
